@@ -275,8 +275,13 @@ def lattice_axioms():
     return ax
 
 
+split_len = z3.Function("split_len", Val, Val, Val, I)
+split_item = z3.Function("split_item", Val, Val, Val, I, Val)
+
+
 def builtin_axioms():
     v = z3.Const("v!ax", Val)
+    _v2, _v3, _i1 = z3.Const("v2!ax", Val), z3.Const("v3!ax", Val), z3.Const("i1!ax", I)
     bb = z3.Const("b!ax", B)
     ax = [
         z3.Not(truthy_u(VNone)),
@@ -288,5 +293,32 @@ def builtin_axioms():
         z3.ForAll([v], z3.Implies(is_dict_u(v), z3.And(is_mapping_u(v), Val.is_ref(v))), patterns=[is_dict_u(v)]),
         z3.ForAll([v], z3.Implies(is_mapping_u(v), Val.is_ref(v)), patterns=[is_mapping_u(v)]),
         z3.ForAll([v], z3.Not(Val.is_ref(type_of(v))), patterns=[type_of(v)]),        # classes are constants, not heap objects
+        z3.ForAll([v, _v2, _v3, _i1], z3.And(Val.is_str(split_item(v, _v2, _v3, _i1)), is_str_u(split_item(v, _v2, _v3, _i1))),
+                  patterns=[split_item(v, _v2, _v3, _i1)]),
     ]
     return ax
+
+
+# ---- opaque string functions (strings are atoms; these name the results of split / f-strings deterministically)
+_FSTR = {}
+
+
+def fstr_fn(template: str, n: int):
+    """the string an f-string with this template produces from its n interpolated values (uninterpreted, deterministic)"""
+    key = (template, n)
+    if key not in _FSTR:
+        _FSTR[key] = z3.Function(f"fstr<{template}>", *([Val] * n), I) if n else None
+    return _FSTR[key]
+
+
+def fstr_template(node) -> str:
+    import ast as _ast
+    out = []
+    for p in node.values:
+        if isinstance(p, _ast.Constant):
+            out.append(str(p.value))
+        else:
+            conv = {-1: "", 115: "!s", 114: "!r", 97: "!a"}.get(p.conversion, "")
+            spec = ":" + fstr_template(p.format_spec) if p.format_spec is not None else ""
+            out.append("{" + conv + spec + "}")
+    return "".join(out)
